@@ -299,7 +299,7 @@ class World:
                 ob["lab"][n] = label_parts(f"raise:{type(ex).__name__}")
             # private leaves; the lazily created style, its pending kwargs and links to other objects (observed as tree
             # links by name) are not part of it
-            priv = [(p, t) for p, t in c.leaves if not (p.startswith("_style") or p.startswith("_parent"))]
+            priv = [(p, t) for p, t in c.leaves if not p.startswith(("_style", "_parent", "_children", "_sources", "_sensors", "_collections"))]
             pub["__dict__"] = canon(sorted(priv))
             if detail:
                 det[n] = {"pub": dict(pub), "leaves": sorted(c.leaves)}
@@ -580,6 +580,20 @@ def copy_keywords(cls, tier):
                  E("style_path_line_width", "style", "style.path.line.width", canon(3)),
                  E("style_path_marker_size", "style", "style.path.marker.size", canon(5))], ["style"]))
     out.append(("style_nested", {"style_path_line_width": 3}, [E("style_path_line_width", "style", "style.path.line.width", canon(3))], []))
+    # the copy joins a collection: "@N" = a collection of the caller, "@P" = the original's own parent (else the caller's)
+    out.append(("parent_new", {"parent": "@N"}, [E("parent", "parent", "parent", "N0")], []))
+    out.append(("parent_same", {"parent": "@P", "style_label": "sibling"}, [E("parent", "parent", "parent", "@P"), E("style_label", "label", "label", "sibling")], []))
+    # REJECTED calls (tag rej_*): a valid keyword followed by an invalid one, and the reverse order
+    av0 = attr_values(cls)
+    bad_attr = av0[-1][0] if len(av0) > 1 else "orientation"
+    ok_kw = {av0[0][0]: av0[0][1]} if av0 else {"position": [1, 1, 1]}
+    out.append(("rej_parent_position", {"parent": "@N", "position": "bad"}, [], []))
+    out.append(("rej_position_parent", {"position": "bad", "parent": "@N"}, [], []))
+    out.append(("rej_parentP_orientation", {"parent": "@P", "orientation": "bad"}, [], []))
+    out.append(("rej_attr_badattr", {**ok_kw, bad_attr: "bad"}, [], []))
+    out.append(("rej_badattr_attr", {bad_attr: "bad", **ok_kw}, [], []))
+    out.append(("rej_label_position", {"style_label": "x", "style": {"color": "red"}, "position": "bad"}, [], []))
+    out.append(("rej_parent_style", {"parent": "@N", "position": [1, 2, 3], "style_nosuchproperty": 1}, [], []))
     combo = {"position": [4, 5, 6], "style_label": "both", "style_opacity": 0.75, "style": {"path": {"frames": [0]}, "opacity": 0.5}}
     ent = [E("position", "path", "position", canon_num(p1)), E("style_label", "label", "label", "both"),
            E("style_opacity", "style", "style.opacity", canon(0.75), call=1), E("style", "style", "style.opacity", canon(0.5), call=2),
@@ -757,7 +771,7 @@ def do_copy(w, root, kwargs, entries, prefix, sc_log, tid):
     pre = w.observe()
     leaves_pre = w.style_leaves(root)
     snapshot = canon(kwargs)
-    entries = [dict(e, text=e["val"], val=(e["val"] if e["family"] == "label" else dg(e["val"]))) for e in entries]
+    entries = [dict(e, text=e["val"], val=(e["val"] if e["family"] in ("label", "parent") else dg(e["val"]))) for e in entries]
     rec = {"tid": tid, "sc": sc_log, "root": root, "cls": type(w.obj[root]).__name__, "pre": pre, "entries": entries}
     try:
         c = w.obj[root].copy(**kwargs)
@@ -824,9 +838,19 @@ def run_scenario(sc, tid0, tier, detail=False):
     cls = type(w.obj[root]).__name__
     tag, kwargs, entries, reuse = [k for k in copy_keywords(cls, tier) if k[0] == sc["kwtag"]][0]
     w.extra_pub[root] = [e["leaf"] for e in entries if e["family"] == "style"]
+    if "parent" in kwargs:
+        # the collection the copy is to join is part of the observed heap
+        if kwargs["parent"] == "@P" and "P" in w.obj:
+            pname = "P"
+        else:
+            pname = "N0"
+            w.obj[pname] = magpy().Collection(magpy().Sensor(position=(8, 8, 8)), position=(0, 3, 0))
+            w.obj["N1"] = w.obj[pname].children[0]
+        kwargs = {k: (w.obj[pname] if k == "parent" else v) for k, v in kwargs.items()}
+        entries = [dict(e, val=pname) if e["family"] == "parent" else e for e in entries]
     if kwargs:
         w.args["ARGS"] = kwargs          # the caller's keyword values: a node of the heap
-    sc_log = dict(sc, label="<None>" if sc["label"] is None else sc["label"], uncopyable="!" in sc["subject"])
+    sc_log = dict(sc, label="<None>" if sc["label"] is None else sc["label"], uncopyable="!" in sc["subject"], expect_raise=sc["kwtag"].startswith("rej_"))
     ev, c = do_copy(w, root, kwargs, entries_for(entries, set(kwargs), 1), "c", sc_log, tid0)
     ren = ev["ren"]
     ev["has2"] = False
